@@ -145,3 +145,15 @@ def step (s : St) : Op → St × Bool
     else ({ s with uniq := s.uniq ++ [fs] }, true)
 
 end Defra.IndexMulti
+
+namespace Defra.IndexMulti
+open Defra Defra.Query
+
+/-- the index path of a read: the entries of the index that pass the candidate test (the key range / matchers the
+    planner derives from the filter), de-duplicated by document, the documents looked up, the complete filter
+    re-applied -/
+def indexFetch (fields : List String) (cand : List V → Bool) (f : Filter) (docs : List MDoc) : List Nat :=
+  let ids := dedupSeen [] (((entries fields docs).filter (fun e => cand e.1)).map (·.2))
+  ((ids.filterMap (fun k => docs.find? (·.k == k))).filter (satisfies f)).map (·.k)
+
+end Defra.IndexMulti
